@@ -337,6 +337,11 @@ def put (s : State) (c : Conn) : State :=
   if s.conns.any (·.name = c.name) then { conns := s.conns.map fun d => if d.name = c.name then c else d }
   else { conns := s.conns ++ [c] }
 
+/-- the connection of a client whose first message cannot be routed: error close, nothing started -/
+def closedAtOnce : St :=
+  { s2c := [.closeError], wsClosed := true, wdone := true, rpc := .done, inClosed := true, adone := true,
+    stopAll := true }
+
 /-- apply external action `a` to connection `c` (if enabled), then settle -/
 def ext (c : Conn) (a : Act) : Option Conn :=
   (step .fixed Caps.generated c.st a).map fun s' => settle { c with st := s' }
@@ -348,9 +353,16 @@ def ok (s : State) (c : Option Conn) : State × String :=
 
 /-- operations (see harness/cmd/onetharness/c15.go):
 `open c m`, `csend c m`, `wstart c n`, `emit c k v`, `svcclose c k`, `cread c`, `cleave c close|drop`,
-`wstop c k`, `hold c p`, `release c p`, `wheld c p`, `flood c k v n`, `wexit c n`, `gc`, `alive` -/
+`wstop c k`, `hold c p`, `release c p`, `wheld c p`, `flood c k v n`, `wexit c n`, `cmute c`, `wclosed c`,
+`cping c`, `ping v`, `gc`, `alive` -/
 def step (s : State) (toks : List String) : State × String :=
   match toks with
+  | ["open", n, "unregistered"] =>
+    -- a path no handler is registered for: `IsStreaming` fails, the read loop of `ServeHTTP` is
+    -- left at once with the error close (websocket.go:279-285, 388-396); no goroutine is started
+    match find s n with
+    | none => (put s { name := n, st := closedAtOnce }, "ok")
+    | some _ => (s, "bad-op")
   | ["open", n, m] =>
     match parseMsg m, find s n with
     | some m, none => (put s (settle { name := n, st := C15.init m }), "ok")
@@ -421,6 +433,29 @@ def step (s : State) (toks : List String) : State × String :=
         else if p = "forwarder-send" then c.st.streams.any (fun st => match st.fwd with | .hold _ => true | _ => false)
         else false
       (s, if held c p && at_ then "ok" else "timeout")
+    | none => (s, "bad-op")
+  | ["cping", n] =>
+    -- a websocket ping: answered by the library under the reader's `ReadMessage`, nothing of onet's moves
+    match find s n with
+    | some _ => (s, "ok")
+    | none => (s, "bad-op")
+  | ["ping", v] =>
+    -- a plain request of another client to the same service (handler `C15Ping`: v ↦ v+1), on a
+    -- connection of its own: it shares nothing with the streams
+    match v.toInt? with
+    | some v => (s, s!"pong {v + 1}")
+    | none => (s, "bad-op")
+  | ["cmute", n] =>
+    -- from now on the client neither answers a close frame nor closes the connection: it only
+    -- listens.  The server does not depend on the client's answer (`writerLeave`: `ServeHTTP`
+    -- returns, the deferred `ws.Close()` runs), so nothing changes here
+    match find s n with
+    | some _ => (s, "ok")
+    | none => (s, "bad-op")
+  | ["wclosed", n] =>
+    -- wait until the server has closed the connection (the deferred `ws.Close()` of `ServeHTTP`)
+    match find s n with
+    | some c => (s, if c.st.wsClosed then "ok" else "timeout")
     | none => (s, "bad-op")
   | ["gc"] => (s, "ok")     -- a garbage collection in the server process: channels are told apart by identity
   | ["alive"] => (s, "ok")
